@@ -105,7 +105,9 @@ def build(S, spec):
         if spec.get('sym_valid_until'):
             vu = S.int('valid_until%d' % j, NOW - TSPAN, NOW + 10 * TSPAN)
         else:
-            vu = sv.get('valid_until', 0)
+            # servers always carry a reboot date (Partition.add); far away
+            # unless the world says otherwise
+            vu = sv.get('valid_until', NOW + 100 * TSPAN)
         srv = sch.Server('s%d' % j, list(cap), valid_until=vu,
                          traits=sv.get('traits', 0),
                          label=sv.get('label', '_default'))
@@ -368,6 +370,13 @@ def apply_event(W, ev):
         ld.cell = cell
         ld.buckets = W.buckets
         ld.load_cell()
+    elif kind == 'set_valid_until':
+        # the reboot date of a server is re-assigned under its instances
+        # (RebootBucket.add, via Partition.add / Loader.set_server_valid_until,
+        # writes the attribute directly)
+        for j in ev[1:]:
+            W.servers[j].valid_until = S.int(
+                'ev_valid_until%d' % j, NOW - TSPAN, NOW + 10 * TSPAN)
     elif kind == 'set_priority':
         i = ev[1]
         W.apps[i].priority = S.int('ev_prio', 0, 100)
